@@ -63,7 +63,17 @@ fn value_operands() -> Vec<Atom> {
         v.push(Atom::Range(End::Int(a), false, End::Max, false));
     }
     v.push(Atom::Range(End::Min, false, End::Max, false));
+    // contained subtypes (X.680 51.3): the values of another constrained INTEGER type
+    v.push(Atom::Contained("Parent-Int".into(), false));
+    v.push(Atom::Contained("Narrow-Int".into(), true));
     v
+}
+
+fn has_contained(c: &Case) -> bool {
+    let is = |a: &Atom| matches!(a, Atom::Contained(..));
+    c.cons.iter().any(|k| {
+        k.root.all_except.as_ref().map_or(false, is) || k.root.unions.iter().any(|u| u.iter().any(|x| is(&x.atom) || x.except.as_ref().map_or(false, is)))
+    })
 }
 
 fn size_operands() -> Vec<Atom> {
@@ -234,7 +244,7 @@ fn case_text(i: usize, c: &Case) -> String {
     }
 }
 
-const PRELUDE: &str = "Aa-Decoy ::= INTEGER { nm1(7), n0(8), n1(9), n5(10), n300(11) }\nNn-Parent ::= INTEGER { nm1(-1), n0(0), n1(1), n5(5), n300(300) }\nZz-Decoy ::= INTEGER { nm1(17), n0(18), n1(19), n5(20), n300(21) }\nParent-Int ::= INTEGER (-1..300)\nvm1 INTEGER ::= -1\nv0 INTEGER ::= 0\nv1 INTEGER ::= 1\nv5 INTEGER ::= 5\nv300 INTEGER ::= 300\n";
+const PRELUDE: &str = "Aa-Decoy ::= INTEGER { nm1(7), n0(8), n1(9), n5(10), n300(11) }\nNn-Parent ::= INTEGER { nm1(-1), n0(0), n1(1), n5(5), n300(300) }\nZz-Decoy ::= INTEGER { nm1(17), n0(18), n1(19), n5(20), n300(21) }\nParent-Int ::= INTEGER (-1..300)\nNarrow-Int ::= INTEGER (0..5)\nvm1 INTEGER ::= -1\nv0 INTEGER ::= 0\nv1 INTEGER ::= 1\nv5 INTEGER ::= 5\nv300 INTEGER ::= 300\n";
 
 fn module_text(cases: &[Case]) -> String {
     let mut s = String::from("Con-Mod DEFINITIONS AUTOMATIC TAGS ::= BEGIN\n");
@@ -256,7 +266,13 @@ fn reference(c: &Case) -> Option<rcon::Effective> {
             d.parse().ok()
         }
     };
-    let types = |_: &str| -> Option<(IntSet, Option<Iv>)> { None };
+    let types = |n: &str| -> Option<(IntSet, Option<Iv>)> {
+        match n {
+            "Parent-Int" => Some((IntSet::range(Some(PARENT_LO), Some(PARENT_HI)), Some(Iv { lo: Some(PARENT_LO), hi: Some(PARENT_HI) }))),
+            "Narrow-Int" => Some((IntSet::range(Some(0), Some(5)), Some(Iv { lo: Some(0), hi: Some(5) }))),
+            _ => None,
+        }
+    };
     let size = c.host != Host::Integer;
     let (pe, pv) = if size {
         (IntSet::range(Some(0), None), None)
@@ -429,6 +445,19 @@ fn seq_of(e: &ESet) -> Option<(Vec<Atom>, Vec<Op>)> {
 }
 
 fn mval(a: &Atom, size: bool, parent: Option<(i128, i128)>) -> MVal {
+    mval_v(a, size, parent, false)
+}
+
+/// `resolved`: a contained subtype counts with the bound of the type it names (what happens
+/// when the constraint also holds a value reference: linking then resolves every reference)
+fn mval_v(a: &Atom, size: bool, parent: Option<(i128, i128)>, resolved: bool) -> MVal {
+    if let (true, Atom::Contained(n, _)) = (resolved, a) {
+        return match n.as_str() {
+            "Parent-Int" => MVal::Range(Some(PARENT_LO), Some(PARENT_HI)),
+            "Narrow-Int" => MVal::Range(Some(0), Some(5)),
+            _ => MVal::None,
+        };
+    }
     let end = |e: &End, lo: bool| -> Option<i128> {
         match e {
             End::Int(v) => Some(*v),
@@ -520,9 +549,48 @@ fn m_fold(vals: &[MVal], ops: &[Op]) -> Option<MVal> {
     }
 }
 
+/// does the marker, which the lexer attaches to the last element, survive the fold? It goes
+/// with its element: dropped when that element ends up in a discarded operand (right of an
+/// EXCEPT, or in a union that a contained subtype makes invisible)
+fn m_carry(vals: &[MVal], ops: &[Op]) -> bool {
+    if vals.len() == 1 {
+        return !matches!(vals[0], MVal::None);
+    }
+    match ops[0] {
+        Op::Except => false,
+        Op::Inter => {
+            // the rest survives as long as it folds to something; if it folds to nothing the
+            // first operand is kept without the marker
+            match m_fold(&vals[1..], &ops[1..]) {
+                Some(MVal::None) | None => false,
+                Some(_) => m_carry(&vals[1..], &ops[1..]),
+            }
+        }
+        Op::Union => {
+            let rest = m_fold(&vals[1..], &ops[1..]);
+            if matches!(vals[0], MVal::None) || matches!(rest, Some(MVal::None) | None) {
+                false
+            } else {
+                m_carry(&vals[1..], &ops[1..])
+            }
+        }
+    }
+}
+
 /// what the right-to-left grouping yields for a whole serial constraint list:
 /// (bound, extensible); None when the model does not apply
 fn grouping_model(c: &Case) -> Option<(Iv, bool)> {
+    grouping_model_v(c, true)
+}
+
+/// `last_rule`: an element set whose last element is a contained subtype is not counted at all
+/// (what happens with literal endpoints); without it the contained subtype is just left out
+/// (what happens when the endpoints are references: linking rebuilds the element set)
+fn grouping_model_v(c: &Case, last_rule: bool) -> Option<(Iv, bool)> {
+    grouping_model_w(c, last_rule, false)
+}
+
+fn grouping_model_w(c: &Case, last_rule: bool, resolved: bool) -> Option<(Iv, bool)> {
     let size = c.host != Host::Integer;
     let mut lo: Option<i128> = if size { Some(0) } else { None };
     let mut hi: Option<i128> = None;
@@ -534,9 +602,24 @@ fn grouping_model(c: &Case) -> Option<(Iv, bool)> {
         let (v, e) = match seq_of(&k.root) {
             None => (MVal::None, outer), // ALL EXCEPT: nothing visible, inner marker swallowed
             Some((atoms, ops)) => {
-                let vals: Vec<MVal> = atoms.iter().map(|a| mval(a, size, None)).collect();
+                // a resolved contained subtype counts with its bound only when it is the whole
+                // element set; inside a set operation the fold leaves it out either way
+                let vals: Vec<MVal> = atoms.iter().map(|a| mval_v(a, size, None, resolved && atoms.len() == 1)).collect();
                 let has_except = ops.contains(&Op::Except);
-                (m_fold(&vals, &ops)?, outer || (k.ext && !has_except))
+                let last_rule = last_rule && !resolved;
+                // an element set counts as PER-visible when its *last* element does
+                // (`o.operant.per_visible() || o.operant.per_visible()` in per_visible.rs):
+                // a contained subtype at the end hides the whole constraint, marker included
+                if last_rule && atoms.len() > 1 && matches!(atoms.last(), Some(Atom::Contained(..))) {
+                    (MVal::None, outer)
+                } else {
+                    // the marker rides on the last element: it goes when that element is dropped
+                    let last_dropped = matches!(atoms.last(), Some(Atom::Contained(..)));
+                    let has_contained_atom = atoms.iter().any(|a| matches!(a, Atom::Contained(..)));
+                    // (the contained-subtype arm of the conversion throws the element's marker away)
+                    let kept = if has_contained_atom { !last_dropped && m_carry(&vals, &ops) } else { !has_except && !last_dropped };
+                    (m_fold(&vals, &ops)?, outer || (k.ext && kept))
+                }
             }
         };
         let (l, h) = match v {
@@ -584,12 +667,27 @@ fn classify(c: &Case, _r: &rcon::Effective, e: &Emitted, clause: &str) -> Option
             }
         }
     }
+    // F-contained-ignored: a contained subtype is never resolved; it counts as "not PER-visible"
+    // (dropped from an intersection, a union with it is unconstrained)
+    // (a marker that rides on a dropped contained subtype goes with it: clause "ext")
+    if has_contained(c) && !mixed_operators(c) && (clause == "exact" || clause == "ext") {
+        for m in [model, grouping_model_v(c, false), grouping_model_w(c, false, true)] {
+            if let Some((b, x)) = m {
+                if b == e.bound && (x == e.ext || e.how == "no annotation") {
+                    return Some("F-contained-ignored");
+                }
+            }
+        }
+    }
     // F-prec: set operators grouped right to left without precedence
     // (without an emitted bound there is nowhere to put `extensible`: only the bound is compared)
     if mixed_operators(c) {
-        if let Some((b, x)) = model {
-            if b == e.bound && (x == e.ext || e.how == "no annotation") {
-                return Some("F-prec");
+        let variants = if has_contained(c) { vec![model, grouping_model_v(c, false), grouping_model_w(c, false, true)] } else { vec![model] };
+        for m in variants {
+            if let Some((b, x)) = m {
+                if b == e.bound && (x == e.ext || e.how == "no annotation") {
+                    return Some("F-prec");
+                }
             }
         }
     }
@@ -668,6 +766,9 @@ fn run_cases(ctx: &mut Ctx, cases: Vec<Case>, stats: &mut std::collections::BTre
                             ctx.case(&line, nontrivial(&case));
                             ctx.class(&format!("host:{:?}", case.host));
                             ctx.class(&format!("place:{:?}", case.place));
+                            if has_contained(&case) {
+                                ctx.class("contained-subtype-operand");
+                            }
                             if let Some((clause, detail)) = judge(&case, &r, &e) {
                                 let sig = format!("{clause} | {:?} | {}", case.place, case.cons.iter().map(|k| shape(&k.root)).collect::<Vec<_>>().join(" )( "));
                                 let ent = stats.entry(sig).or_insert((0, vec![]));
